@@ -34,6 +34,7 @@ mod suite_e2e;
 mod suite_fee;
 mod suite_height;
 mod suite_provider;
+mod suite_system;
 mod suite_tlv;
 mod suite_wire;
 
@@ -70,6 +71,7 @@ fn main() {
         "height" => suite_height::run(ctx),
         "wire" => suite_wire::run(ctx),
         "e2e" => suite_e2e::run(ctx),
+        "system" => suite_system::run(ctx),
         other => { eprintln!("unknown suite {}", other); std::process::exit(2); }
     }
 }
